@@ -6,6 +6,7 @@ produce the same observations for every schedule that respects the documented co
 -/
 import NeoModel.Model.Mpt.LazyBatch
 import NeoModel.Model.Mpt.LazySeek
+import NeoModel.Model.Mpt.LazyFind
 namespace NeoModel.Mpt
 
 inductive LOp where
@@ -14,6 +15,7 @@ inductive LOp where
   | batch (m : List KV)             -- Trie.PutBatch(MapToMPTBatch(m))
   | get (p : Path)                  -- Trie.Get
   | proof (p : Path)                -- Trie.GetProof
+  | find (pre : Path) (frm : Option Path) (maxNum : Nat)  -- Trie.Find (loads nodes in place)
   | seek (pre start : Path) (back : Bool)  -- NewTrieStore(StateRoot(), …).Seek: a fresh trie HashNode(root) over the same store
   | root                            -- Trie.StateRoot
   | flush                           -- Trie.Flush
@@ -27,6 +29,7 @@ inductive Obs where
   | root (h : Bytes)
   | proof (ps : Option (List Bytes))
   | seek (r : Option (List (Path × Val)))
+  | find (r : Option (List (Path × Val)))
   deriving DecidableEq
 
 /-- the trie object: its root node and the store behind it. -/
@@ -50,6 +53,7 @@ def lstep (H : Bytes → Bytes) (F : Nat) (s : LState) : LOp → LState × Obs
     | some x => ({ s with root := x.1 }, .proof (some x.2))
     | none => (s, .proof none)
   | .root => (s, .root (lrootHash H s.root))
+  | .find pre frm m => let r := lfind s.store F s.root pre frm m; ({ s with root := r.1 }, .find r.2)
   | .seek pre st back => (s, .seek (lseek s.store F (lreopen H s.root) pre st back))
   | .flush => ({ s with store := lflush H s.store s.root }, .ok)
   | .collapse d => ({ s with root := lcollapse H d s.root }, .ok)
@@ -63,6 +67,7 @@ def estep (H : Bytes → Bytes) (t : Node) : LOp → Node × Obs
   | .get p => (t, .val (lookup t p))
   | .proof p => (t, .proof (getProof H t p))
   | .root => (t, .root (rootHash H t))
+  | .find pre frm m => (t, .find (findX t pre frm m))
   | .seek pre st back => (t, .seek (some (seek t pre st back)))
   | .flush => (t, .ok)
   | .collapse _ => (t, .ok)
